@@ -76,6 +76,28 @@ def check_roundtrip(ns, fs, markers=None):
     if fs2d is None or snapshot(fs2d, ns) != b:
         return ("reused-parser", "loaded through a Parser that had just refused another script: %s" % (
             err or "%r instead of %r" % ([x[:3] for x in snapshot(fs2d, ns)], [x[:3] for x in b])))
+    # saved to a file (the octets of the rendering, nothing translated) and loaded through parse_file: the same set again
+    import os
+    import tempfile
+    fd, path = tempfile.mkstemp(prefix="verif_c11_", suffix=".sieve")
+    try:
+        with os.fdopen(fd, "wb") as f:
+            f.write(text1.encode("utf-8"))
+        pf = ns.parser.Parser()
+        try:
+            okf = pf.parse_file(path)
+        except Exception as e:  # noqa
+            return ("file-load", "parse_file on the saved rendering raised %s: %s" % (type(e).__name__, str(e)[:80]))
+    finally:
+        os.unlink(path)
+    if okf is not True:
+        return ("file-load", "parse_file refuses the saved rendering: %s" % pf.error)
+    kwf = dict(filter_name_pretext=markers[0], filter_desc_pretext=markers[1]) if markers else {}
+    fsf = F.new_set(ns, **kwf)
+    fsf.from_parser_result(pf)
+    if snapshot(fsf, ns) != b:
+        return ("file-load", "the set loaded with parse_file from the saved rendering differs from the one loaded with parse: %r instead of %r" % (
+            [x[:3] for x in snapshot(fsf, ns)], [x[:3] for x in b]))
     text2 = F.render(fs2)
     # "whose filters render to scripts that parse to the same trees" (in-memory representations may differ)
     t1 = seams.run_parse(text1)
@@ -97,7 +119,7 @@ def check_roundtrip(ns, fs, markers=None):
 def hist_events():
     ev = []
     for n in ("a", "b"):
-        for d in (("d1", "d3", "d5", "d6", "d7", "d10", "d12", "d13", "d14") if n == "a" else ("d1", "d3", "d7")):
+        for d in (("d1", "d3", "d5", "d6", "d7", "d10", "d12", "d13", "d14", "d15") if n == "a" else ("d1", "d3", "d7")):
             ev.append(("add", n, d))
         ev.append(("update", n, "c", "d2"))
         ev.append(("replace", n, ("fresh", "d4"), None, "desc é: x"))
